@@ -30,7 +30,7 @@ RULE = (
 ASSUMPTIONS = [
     'the trusted base contains the simulated MPI (vf/simmpi/mpi4py/MPI.py): non-overtaking matching, Issend completes at match, Isend eager or rendezvous by scheduler choice, collectives are rendezvous points, Test() reports completion after a bounded delay',
     'rank threads share Python class-level state (e.g. mesh.comm), which real MPI processes would not; space communicators are None throughout',
-    'values are compared to 1e-12*scale (reductions are summed in a different order), iteration counts / restarts / step sizes exactly, step times to 2 ulp; the interrupt-based iteration estimator is excluded',
+    'values are compared to 1e-12*scale (reductions are summed in a different order), iteration counts / restarts exactly, step sizes to 1e-14 relative, step times to (4 + number of blocks so far) ulp (sums of step sizes accumulated in a different order); the interrupt-based iteration estimator is excluded',
 ]
 EXHAUSTIVE = {'quick': False, 'thorough': False}
 POLICIES = ['random', 'random', 'roundrobin', 'pct', 'latest', 'earliest', 'starve:0', 'starve:1', 'starve:2']
@@ -39,8 +39,8 @@ POLICIES = ['random', 'random', 'roundrobin', 'pct', 'latest', 'earliest', 'star
 def cases(tier, seed):
     rng = np.random.default_rng(seed + 808)
     cs = []
-    nsched = 12 if tier == 'quick' else 150
-    ncfg = 26 if tier == 'quick' else 220
+    nsched = 12 if tier == 'quick' else 50
+    ncfg = 26 if tier == 'quick' else 640
     for i in range(ncfg):
         nlev = int(rng.choice([1, 1, 2, 2, 3]))
         procs = int(rng.integers(1, 6))
@@ -50,11 +50,11 @@ def cases(tier, seed):
         cs.append(dict(kind='time', procs=procs, nlev=nlev, predict=[None, 'fine_only', 'pfasst_burnin'][int(rng.integers(0, 3))] if nlev > 1 else None, jac=bool(rng.random() < 0.5) if mode != 'adaptive' else False,
                        mode=mode, nsteps=int(rng.integers(1, 3 * procs + 1)), maxiter=int(rng.integers(1, 5)), restol=float(rng.choice([-1.0, 1e-8, 1e-3, 0.05, 0.2, 1.0])), prob=['heat', 'dahlquist'][i % 2] if nlev == 1 else 'heat',
                        a2d=bool(rng.random() < 0.2), rffs=bool(rng.random() < 0.3), mr=int(rng.integers(1, 4)), nsched=nsched, seed=int(rng.integers(0, 2**31)), _cost=procs * nlev * nsched))
-    for i in range(10 if tier == 'quick' else 90):
+    for i in range(10 if tier == 'quick' else 260):
         M = int(rng.integers(2, 5))
         cs.append(dict(kind='node', M=M, sweeper=['impl', 'imex'][i % 2], QI=['MIN-SR-S', 'IEpar', 'MIN-SR-NS', 'Qpar', 'MIN'][int(rng.integers(0, 5))], nlev=int(rng.choice([1, 1, 2])), qt=['RADAU-RIGHT', 'LOBATTO', 'GAUSS'][int(rng.integers(0, 3))],
                        rtype=['full_abs', 'last_abs', 'full_rel', 'last_rel'][int(rng.integers(0, 4))], guess=['spread', 'copy', 'zero'][int(rng.integers(0, 3))], nsteps=int(rng.integers(1, 4)), nsched=nsched, seed=int(rng.integers(0, 2**31)), _cost=M * nsched))
-    for i in range(6 if tier == 'quick' else 60):
+    for i in range(6 if tier == 'quick' else 160):
         cs.append(dict(kind='timexnode', T=int(rng.integers(2, 4)), M=int(rng.integers(2, 4)), sweeper=['impl', 'imex'][i % 2], QI=['MIN-SR-S', 'IEpar'][i % 2], nsteps=int(rng.integers(2, 7)), nsched=max(4, nsched // 2), seed=int(rng.integers(0, 2**31)), _cost=8 * nsched))
     return cs
 
@@ -110,7 +110,8 @@ def add_control(case, d, dt, useMPI):
     elif case['mode'] == 'adaptive':
         d['level_params']['restol'] = -1.0
         d['step_params']['maxiter'] = max(2, case['maxiter'])
-        d['convergence_controllers'] = {Adaptivity: dict(e_tol=1e-6)}
+        # tolerance tied to the order of the step so that the number of steps stays in the hundreds
+        d['convergence_controllers'] = {Adaptivity: dict(e_tol={2: 1e-4, 3: 1e-5}.get(d['step_params']['maxiter'], 1e-6))}
 
 
 def last_attempt(stats):
@@ -234,8 +235,11 @@ def run_time(case, r):
             same_len = len(a) == len(b)
             r.check(same_len, 'same-steps', f'{stag}: {len(b)} {typ!r} records over all ranks, serial run has {len(a)}')
             if same_len:
-                okv = all(abs(x[0] - y[0]) <= 4 * np.spacing(max(abs(x[0]), 1.0)) and (x[1] == y[1] if typ != 'dt' else abs(x[1] - y[1]) <= 1e-14 * abs(x[1])) for x, y in zip(a, b))
-                r.check(okv, f'same-{typ}', f'{stag}: {typ} over time differs from the serial run: {b[:6]} vs {a[:6]}')
+                # step start times are sums of step sizes accumulated in a different order on the ranks: the admissible
+                # difference grows with the number of blocks summed so far
+                bad = [i_ for i_, (x, y) in enumerate(zip(a, b)) if not (abs(x[0] - y[0]) <= (4 + i_ // max(1, procs)) * np.spacing(max(abs(x[0]), 1.0)) and (x[1] == y[1] if typ != 'dt' else abs(x[1] - y[1]) <= 1e-14 * abs(x[1])))]
+                lo = max(0, bad[0] - 2) if bad else 0
+                r.check(not bad, f'same-{typ}', f'{stag}: {typ} over time differs from the serial run at record {bad[:1]} of {len(a)}: {b[lo:lo + 5]} vs serial {a[lo:lo + 5]}')
         a, b = refc['residual_post_step'], merged.get('residual_post_step', [])
         if len(a) == len(b):
             okr = all((x[1] is None and y[1] is None) or abs(x[1] - y[1]) <= 1e-11 * max(1.0, abs(x[1])) for x, y in zip(a, b))
